@@ -1,17 +1,574 @@
-"""placeholder"""
-def scope_ids(program):
-    out = {}
-    def walk(body):
+"""Reference interpreter for C13 cancel-scope programs (no asyncio, no code under test).
+
+Program grammar (JSON-able; times are integers in 1/1024 s so that every sum is exact):
+
+    body   := [node, ...]
+    node   := ["mark", i]                      record "reached mark i at virtual time t"
+            | ["cp"]                           bare checkpoint (backend.coro_yield())
+            | ["sleep", n]                     backend.sleep(n/1024); n == 0 is a bare checkpoint
+            | ["scope", kind, delay, body]     kind in SCOPE_KINDS; delay None = no deadline; deadline = now + delay
+            | ["shield", body]                 backend.ignore_cancellation(body)
+            | ["cancel", level]                scope.cancel() on the level-th lexically enclosing scope (0 = innermost);
+                                               for a child task the lexical chain continues into the parent's scopes
+            | ["resched", level, when]         scope.reschedule(now + when) (None = inf)
+            | ["group", [body, ...], body]     task group: children started with start_soon, then the parent body
+    case   := program body + optional external task.cancel() of the program task at virtual time `ext`
+
+Semantics (level-triggered, Trio-style; each rule is what the statement/docstrings promise):
+
+* A task is *due* for cancellation when it is not inside a shield and either one of the scopes it hosts has
+  cancel_called, or a foreign one-shot cancel (external task.cancel() for the program task, task-group abort for a
+  child) has been requested and not yet delivered.  A due task is interrupted at its next checkpoint, or at once if
+  it is parked in one.
+* A scope's deadline passing, `cancel()`, or `reschedule()` to a time that is not in the future set cancel_called.
+  Code between that moment and the next checkpoint still runs.
+* An interrupt travelling outwards is caught by a scope with cancel_called iff no foreign cancel is pending on the task
+  and no enclosing scope hosted by the task has cancel_called.  If an enclosing scope is cancelled as well, the statement
+  allows either scope to catch: the choice is read from `hints` (the observed run) so that everything else stays
+  exactly predictable; a surviving cancelled encloser interrupts the next checkpoint again.
+* A foreign cancel crosses every scope and ends the task.
+* Inside a shield nothing is ever interrupted, scopes opened inside it included; whatever became due is delivered
+  at the first checkpoint after the shield.
+* An interrupt leaving a task-group block (or hitting the parent while it waits for its children at the end of the
+  block) cancels the unfinished children (foreign cancel for them), waits for them, then continues outwards.
+
+The interpreter has no notion of event-loop turns.  Whenever the outcome would depend on them it says so instead of
+guessing: `tie` (two timers due at the same virtual instant) and `racy` (a cross-task cancellation meeting a task that
+is passing bare checkpoints, or that has not started, at the same instant).  Exact comparison is only meaningful when
+both are False.
+"""
+
+from __future__ import annotations
+
+import math
+from collections import deque
+from typing import Any, Iterator
+
+SCOPE_KINDS = ("move_on_after", "timeout", "open", "move_on_at", "timeout_at")
+TIMEOUT_KINDS = ("timeout", "timeout_at")
+
+INF = math.inf
+
+
+# ----------------------------------------------------------------------------------------------
+# static helpers
+
+
+def scope_ids(program: list) -> dict[int, int]:
+    """id(node) -> preorder number, separately for scope nodes and group nodes (both start at 0)."""
+    out: dict[int, int] = {}
+    counters = {"scope": 0, "group": 0}
+
+    def walk(body: list) -> None:
         for node in body:
             op = node[0]
             if op == "scope":
-                out[id(node)] = len(out)
+                out[id(node)] = counters["scope"]
+                counters["scope"] += 1
                 walk(node[3])
             elif op == "shield":
                 walk(node[1])
             elif op == "group":
+                out[id(node)] = counters["group"]
+                counters["group"] += 1
                 for c in node[1]:
                     walk(c)
                 walk(node[2])
+
     walk(program)
     return out
+
+
+def child_name(gid: int, index: int) -> str:
+    return f"g{gid}c{index}"
+
+
+def count_nodes(body: list) -> int:
+    n = 0
+    for node in body:
+        n += 1
+        op = node[0]
+        if op == "scope":
+            n += count_nodes(node[3])
+        elif op == "shield":
+            n += count_nodes(node[1])
+        elif op == "group":
+            n += sum(count_nodes(c) for c in node[1]) + count_nodes(node[2])
+    return n
+
+
+def depth(body: list) -> int:
+    d = 0
+    for node in body:
+        op = node[0]
+        if op == "scope":
+            d = max(d, 1 + depth(node[3]))
+        elif op == "shield":
+            d = max(d, 1 + depth(node[1]))
+        elif op == "group":
+            d = max(d, 1 + max([depth(c) for c in node[1]] + [depth(node[2])]))
+    return d
+
+
+def scope_depth(body: list) -> int:
+    """max number of lexically nested scope nodes (children inherit the chain of their group)"""
+    d = 0
+    for node in body:
+        op = node[0]
+        if op == "scope":
+            d = max(d, 1 + scope_depth(node[3]))
+        elif op == "shield":
+            d = max(d, scope_depth(node[1]))
+        elif op == "group":
+            d = max([d] + [scope_depth(c) for c in node[1]] + [scope_depth(node[2])])
+    return d
+
+
+def count_ops(body: list, op_name: str) -> int:
+    n = 0
+    for node in body:
+        op = node[0]
+        if op == op_name:
+            n += 1
+        if op == "scope":
+            n += count_ops(node[3], op_name)
+        elif op == "shield":
+            n += count_ops(node[1], op_name)
+        elif op == "group":
+            n += sum(count_ops(c, op_name) for c in node[1]) + count_ops(node[2], op_name)
+    return n
+
+
+# ----------------------------------------------------------------------------------------------
+# the interpreter
+
+
+class _Interrupt(Exception):
+    """the model's CancelledError"""
+
+
+class MScope:
+    __slots__ = (
+        "sid", "kind", "host", "deadline", "cancel_called", "caught", "active", "entered_at", "exited_at",
+        "suspended_while_cancelled", "crossed", "timeout_raised",
+    )  # fmt: skip
+
+    def __init__(self, sid: int, kind: str, host: "MTask", deadline: float, now: int) -> None:
+        self.sid = sid
+        self.kind = kind
+        self.host = host
+        self.deadline = deadline
+        self.cancel_called = False
+        self.caught = False
+        self.active = True
+        self.entered_at = now
+        self.exited_at: int | None = None
+        self.suspended_while_cancelled = False
+        self.crossed = False
+        self.timeout_raised = False
+
+
+class MGroup:
+    __slots__ = ("parent", "children", "aborted")
+
+    def __init__(self, parent: "MTask") -> None:
+        self.parent = parent
+        self.children: list[MTask] = []
+        self.aborted = False
+
+    def unfinished(self) -> list["MTask"]:
+        return [c for c in self.children if c.state != "done"]
+
+
+class MTask:
+    __slots__ = (
+        "name", "gen", "stack", "shield", "foreign", "foreign_at", "state", "wake_at", "outcome", "marks", "group",
+        "last_bare_cp_at", "signal_at", "waiting_on",
+    )  # fmt: skip
+
+    def __init__(self, name: str) -> None:
+        self.name = name
+        self.gen: Iterator[Any] | None = None
+        self.stack: list[MScope] = []
+        self.shield = 0
+        self.foreign = False
+        self.foreign_at: int | None = None
+        self.state = "new"  # new | ready | running | cp | sleep | groupwait | cleanup | done
+        self.wake_at: int | None = None
+        self.outcome: str | None = None
+        self.marks: list[tuple[int, int]] = []
+        self.group: MGroup | None = None
+        self.last_bare_cp_at: int | None = None
+        self.signal_at: int | None = None
+        self.waiting_on: MGroup | None = None
+
+    def pending(self) -> bool:
+        return self.foreign or any(s.cancel_called for s in self.stack)
+
+    def due(self) -> bool:
+        return not self.shield and self.pending()
+
+
+class ModelResult:
+    def __init__(self) -> None:
+        self.outcome: str | None = None
+        self.end_time: int | None = None
+        self.marks: dict[str, list[tuple[int, int]]] = {}
+        self.scopes: dict[int, dict[str, Any]] = {}
+        self.children: dict[str, str | None] = {}
+        self.ext_requested = False
+        self.ext_pending_at_end = False
+        self.tie = False
+        self.racy = False
+        self.stuck = False
+        self.used_hint = False
+        self.d5_shape = False  # a foreign cancel and a hosted scope's own cancellation pending on one task together
+        self.d6_shape = False  # a scope cancelled while its host was suspended exits with no interrupt passing it
+        self.d6_scopes: list[tuple[int, bool]] = []  # (scope number, exited inside a shield) for every such scope
+        self.poller_expected = False  # virtual time advanced while some active scope had cancel_called
+        self.nt_nested_cancel = False  # a scope got cancelled while >= 2 scopes were active
+        self.nt_shield_pending = False  # a shield ended with a cancellation pending on its task
+        self.notes: list[str] = []
+
+    def exact(self) -> bool:
+        return not (self.tie or self.racy or self.stuck)
+
+
+class _Sim:
+    def __init__(self, program: list, ext: int | None, hints: dict[int, bool] | None) -> None:
+        self.program = program
+        self.ext = ext
+        self.hints = hints or {}
+        self.ids = scope_ids(program)
+        self.now = 0
+        self.ready: deque[tuple[MTask, BaseException | None]] = deque()
+        self.tasks: list[MTask] = []
+        self.scopes: list[MScope] = []
+        self.current: MTask | None = None
+        self.ext_fired = False
+        self.res = ModelResult()
+
+    # -- cancellation plumbing -------------------------------------------------------------------
+
+    def poke(self, target: MTask, cross_task: bool) -> None:
+        """target's cancellation state changed; wake it if it is parked in an interruptible wait and due"""
+        res = self.res
+        state = target.state
+        if target is self.current or state == "ready":
+            if cross_task or target is not self.current:
+                target.signal_at = self.now
+        if cross_task:
+            if state == "new":
+                res.racy = True
+                res.notes.append(f"{target.name}: cancelled before it started")
+            elif state == "cp" or (target is not self.current and target.last_bare_cp_at == self.now):
+                res.racy = True
+                res.notes.append(f"{target.name}: cross-task cancellation while passing a bare checkpoint")
+        if state == "done" or not target.due():
+            return
+        if state in ("sleep", "groupwait"):
+            target.state = "ready"
+            target.wake_at = None
+            self.ready.append((target, _Interrupt()))
+        # state == "cp": already queued, the interrupt is decided when it is resumed
+
+    def cancel_scope(self, scope: MScope, by: MTask | None) -> None:
+        if scope.cancel_called:
+            return
+        res = self.res
+        scope.cancel_called = True
+        if sum(1 for s in self.scopes if s.active) >= 2:
+            res.nt_nested_cancel = True
+        if not scope.active:
+            return
+        host = scope.host
+        if host is not self.current:
+            scope.suspended_while_cancelled = True
+        if host.foreign and host.state != "done":
+            res.d5_shape = True
+        self.poke(host, cross_task=by is not None and by is not host)
+
+    def request_foreign(self, target: MTask, cross_task: bool) -> None:
+        if target.foreign or target.state == "done":
+            return
+        target.foreign = True
+        target.foreign_at = self.now
+        if any(s.cancel_called for s in target.stack):
+            self.res.d5_shape = True
+        self.poke(target, cross_task=cross_task)
+
+    def abort(self, grp: MGroup) -> None:
+        grp.aborted = True
+        for c in grp.unfinished():
+            self.request_foreign(c, cross_task=True)
+
+    # -- program interpreter (generators; a yield parks the task) --------------------------------
+
+    def body(self, task: MTask, body: list, env: list[MScope]) -> Iterator[Any]:
+        for node in body:
+            yield from self.node(task, node, env)
+
+    def checkpoint(self, task: MTask, dur: int) -> Iterator[Any]:
+        res = self.res
+        if dur == 0:
+            if task.signal_at == self.now and task.pending():
+                res.racy = True
+                res.notes.append(f"{task.name}: bare checkpoint at the instant a cross-task cancellation was sent to it")
+            task.last_bare_cp_at = self.now
+        for s in task.stack:
+            if s.cancel_called:
+                s.suspended_while_cancelled = True
+        if task.due():
+            raise _Interrupt()
+        if dur == 0:
+            yield ("cp",)
+        else:
+            yield ("sleep", dur)
+
+    def node(self, task: MTask, node: list, env: list[MScope]) -> Iterator[Any]:
+        op = node[0]
+        if op == "mark":
+            task.marks.append((node[1], self.now))
+        elif op == "cp":
+            yield from self.checkpoint(task, 0)
+        elif op == "sleep":
+            yield from self.checkpoint(task, node[1])
+        elif op == "cancel":
+            if env:
+                self.cancel_scope(env[-1 - (node[1] % len(env))], by=task)
+        elif op == "resched":
+            if env:
+                scope = env[-1 - (node[1] % len(env))]
+                scope.deadline = INF if node[2] is None else self.now + node[2]
+                if scope.active and not scope.cancel_called and scope.deadline <= self.now:
+                    self.cancel_scope(scope, by=task)
+        elif op == "shield":
+            task.shield += 1
+            try:
+                yield from self.body(task, node[1], env)
+            finally:
+                task.shield -= 1
+            if task.pending():
+                self.res.nt_shield_pending = True
+        elif op == "scope":
+            yield from self.scope(task, node, env)
+        elif op == "group":
+            yield from self.group(task, node, env)
+        else:
+            raise ValueError(f"unknown program node {node!r}")
+
+    def scope(self, task: MTask, node: list, env: list[MScope]) -> Iterator[Any]:
+        _, kind, delay, body = node
+        res = self.res
+        deadline = INF if delay is None else self.now + delay
+        scope = MScope(self.ids[id(node)], kind, task, deadline, self.now)
+        self.scopes.append(scope)
+        task.stack.append(scope)
+        if deadline <= self.now:
+            self.cancel_scope(scope, by=task)
+        interrupt: _Interrupt | None = None
+        try:
+            yield from self.body(task, body, env + [scope])
+        except _Interrupt as exc:
+            interrupt = exc
+        task.stack.pop()
+        scope.active = False
+        scope.exited_at = self.now
+        if interrupt is None:
+            if scope.cancel_called and scope.suspended_while_cancelled:
+                res.d6_shape = True
+                res.d6_scopes.append((scope.sid, task.shield > 0))
+            return
+        scope.crossed = True
+        catch = False
+        if scope.cancel_called:
+            if task.foreign:
+                res.d5_shape = True
+            elif any(s.cancel_called for s in task.stack):
+                res.used_hint = True
+                catch = bool(self.hints.get(scope.sid, False))
+            else:
+                catch = True
+        if not catch:
+            raise interrupt
+        scope.caught = True
+        if kind in TIMEOUT_KINDS:
+            scope.timeout_raised = True  # the executor swallows the TimeoutError right outside the scope
+
+    def group(self, task: MTask, node: list, env: list[MScope]) -> Iterator[Any]:
+        _, children, body = node
+        gid = self.ids[id(node)]
+        grp = MGroup(task)
+        for i, prog in enumerate(children):
+            child = MTask(child_name(gid, i))
+            child.group = grp
+            child.gen = self.child_main(child, prog, list(env))
+            grp.children.append(child)
+            self.tasks.append(child)
+            self.ready.append((child, None))
+        interrupt: _Interrupt | None = None
+        try:
+            yield from self.body(task, body, env)
+            if grp.unfinished():
+                # waiting for the children at the end of the block is an ordinary (interruptible) checkpoint
+                for s in task.stack:
+                    if s.cancel_called:
+                        s.suspended_while_cancelled = True
+                if task.due():
+                    raise _Interrupt()
+                yield ("groupwait", grp)
+        except _Interrupt as exc:
+            interrupt = exc
+        if interrupt is None:
+            return
+        self.abort(grp)
+        while grp.unfinished():
+            for s in task.stack:
+                if s.cancel_called:
+                    s.suspended_while_cancelled = True
+            yield ("cleanup", grp)
+        raise interrupt
+
+    def child_main(self, task: MTask, prog: list, env: list[MScope]) -> Iterator[Any]:
+        try:
+            yield from self.body(task, prog, env)
+            task.outcome = "ok"
+        except _Interrupt:
+            task.outcome = "cancelled"
+
+    def main(self, task: MTask) -> Iterator[Any]:
+        try:
+            yield from self.body(task, self.program, [])
+            task.outcome = "ok"
+        except _Interrupt:
+            task.outcome = "cancelled"
+
+    # -- scheduler -------------------------------------------------------------------------------
+
+    def step(self, task: MTask, exc: BaseException | None) -> None:
+        if task.state == "done":
+            return
+        if task.state == "new" and task.foreign:
+            # cancelled before its first step: the coroutine never runs
+            task.outcome = "cancelled"
+            self.finish(task)
+            return
+        if exc is None and task.state == "cp" and task.due():
+            exc = _Interrupt()
+        task.state = "running"
+        self.current = task
+        assert task.gen is not None
+        try:
+            req = task.gen.send(None) if exc is None else task.gen.throw(exc)  # type: ignore[attr-defined]
+        except StopIteration:
+            self.current = None
+            self.finish(task)
+            return
+        self.current = None
+        kind = req[0]
+        if kind == "cp":
+            task.state = "cp"
+            self.ready.append((task, None))
+        elif kind == "sleep":
+            task.state = "sleep"
+            task.wake_at = self.now + req[1]
+        elif kind in ("groupwait", "cleanup"):
+            grp: MGroup = req[1]
+            if not grp.unfinished():
+                task.state = "ready"
+                self.ready.append((task, None))
+            else:
+                task.state = kind
+                task.waiting_on = grp
+        else:  # pragma: no cover
+            raise ValueError(req)
+
+    def finish(self, task: MTask) -> None:
+        task.state = "done"
+        grp = task.group
+        if grp is not None and not grp.unfinished():
+            parent = grp.parent
+            if parent.state in ("groupwait", "cleanup") and parent.waiting_on is grp:
+                parent.state = "ready"
+                parent.waiting_on = None
+                self.ready.append((parent, None))
+
+    def run(self) -> ModelResult:
+        res = self.res
+        main = MTask("main")
+        main.gen = self.main(main)
+        self.tasks.append(main)
+        self.ready.append((main, None))
+        guard = 0
+        if self.ext is not None and self.ext <= 0:
+            res.tie = True  # due in the instant the program starts: its position among the first steps is a loop-turn matter
+        while True:
+            while self.ready:
+                guard += 1
+                if guard > 100_000:
+                    res.stuck = True
+                    res.notes.append("model: step budget exhausted")
+                    return res
+                task, exc = self.ready.popleft()
+                if exc is not None and task.state != "ready":
+                    continue  # stale wake-up
+                self.step(task, exc)
+            if main.state == "done":
+                break
+            timers: list[tuple[int, int, Any]] = []
+            for t in self.tasks:
+                if t.state == "sleep":
+                    timers.append((t.wake_at, 2, t))  # type: ignore[arg-type]
+            for s in self.scopes:
+                if s.active and not s.cancel_called and s.deadline != INF:
+                    timers.append((int(s.deadline), 1, s))
+            if self.ext is not None and not self.ext_fired:
+                timers.append((max(self.ext, 0), 0, None))
+            if not timers:
+                res.stuck = True
+                res.notes.append("model: nothing runnable and no timer pending")
+                break
+            tmin = min(t[0] for t in timers)
+            due = sorted((t for t in timers if t[0] == tmin), key=lambda t: t[1])
+            if len(due) > 1 or tmin <= self.now:
+                # two timers in one instant, or a timer already due while tasks are still running in this instant
+                res.tie = True
+            if tmin > self.now and any(s.active and s.cancel_called for s in self.scopes):
+                res.poller_expected = True
+            self.now = max(self.now, tmin)
+            for _, order, obj in due:
+                if order == 0:
+                    self.ext_fired = True
+                    res.ext_requested = True
+                    self.request_foreign(main, cross_task=False)
+                elif order == 1:
+                    if obj.active and not obj.cancel_called and obj.deadline <= self.now:
+                        self.cancel_scope(obj, by=None)
+                else:
+                    if obj.state == "sleep" and obj.wake_at is not None and obj.wake_at <= self.now:
+                        obj.state = "ready"
+                        obj.wake_at = None
+                        self.ready.append((obj, None))
+        res.outcome = main.outcome
+        res.end_time = self.now
+        res.ext_pending_at_end = main.foreign and main.outcome == "ok"
+        for t in self.tasks:
+            res.marks[t.name] = list(t.marks)
+            if t is not main:
+                res.children[t.name] = t.outcome
+        for s in self.scopes:
+            res.scopes[s.sid] = {
+                "kind": s.kind,
+                "entered_at": s.entered_at,
+                "exited_at": s.exited_at,
+                "cancel_called": s.cancel_called,
+                "caught": s.caught,
+                "timeout_raised": s.timeout_raised,
+            }
+        return res
+
+
+def simulate(program: list, ext: int | None = None, hints: dict[int, bool] | None = None) -> ModelResult:
+    """Run the reference interpreter.  `hints[sid]` resolves the one choice the statement leaves open (which of two
+    cancelled nested scopes catches); everything else is determined by the program."""
+    return _Sim(program, ext, hints).run()
